@@ -183,4 +183,4 @@ def run(ctx, rep):
     from rules import castlib
     rep.floor("C07.cast", "narrowing casts inspected", castlib.cast_audit(ctx, rep, "C07", ['decode.rs', 'audio.rs', 'byteorder.rs', 'crc.rs']), 10)
     from rules import C05 as _C05
-    _C05.run(ctx, SubReport(rep, "C05", "C07.valid", only=r"^C05\.(short|eof)$"))
+    compose(ctx, rep, "C05", "C07.valid", r"^C05\.(short|eof)$")
